@@ -135,7 +135,10 @@ def replay_binary(profile='dev'):
     shutil.copyfile(os.path.join(REPO, 'Cargo.lock'), os.path.join(rdir, 'Cargo.lock'))
     tdir = os.path.join(BUILD, 'replay-target')
     cmd = ['cargo', 'build', '--offline'] + (['--release'] if profile == 'release' else [])
-    p = subprocess.run(cmd, cwd=rdir, env=env_offline({'CARGO_TARGET_DIR': tdir}), capture_output=True, text=True, timeout=1800)
+    import fcntl
+    with open(os.path.join(BUILD, '.replay-build.lock'), 'w') as lk:          # forked workers build one at a time
+        fcntl.flock(lk, fcntl.LOCK_EX)
+        p = subprocess.run(cmd, cwd=rdir, env=env_offline({'CARGO_TARGET_DIR': tdir}), capture_output=True, text=True, timeout=1800)
     if p.returncode != 0:
         raise Inconclusive('replay binary does not build against the current tree: ' + p.stderr[-600:])
     _built[profile] = os.path.join(tdir, 'release' if profile == 'release' else 'debug', 'verif-replay')
